@@ -2198,13 +2198,18 @@ class Context:
         )
 
     def _set_peer_certificate(self, certificate: Certificate) -> None:
-        self._peer_certificate = x509.load_der_x509_certificate(
-            certificate.certificates[0][0]
-        )
-        self._peer_certificate_chain = [
-            x509.load_der_x509_certificate(certificate.certificates[i][0])
-            for i in range(1, len(certificate.certificates))
-        ]
+        if not certificate.certificates:
+            raise AlertDecodeError("Certificate message has an empty certificate list")
+        try:
+            self._peer_certificate = x509.load_der_x509_certificate(
+                certificate.certificates[0][0]
+            )
+            self._peer_certificate_chain = [
+                x509.load_der_x509_certificate(certificate.certificates[i][0])
+                for i in range(1, len(certificate.certificates))
+            ]
+        except ValueError:
+            raise AlertBadCertificate("Could not parse X.509 certificate")
 
     def _set_state(self, state: State) -> None:
         if self.__logger:
